@@ -1,5 +1,6 @@
 // Parser operations (term level and parse_subgoal): the string travels as an `s<cp>.<cp>…` atom.
 // Observation: (ok <value>) | err ; a panic is caught by main.rs.
+use std::rc::Rc;
 use suiron::*;
 use crate::sexp::{Sexp, Sexp::*, a};
 use crate::conv::*;
@@ -26,7 +27,7 @@ pub fn run_case(c: &Sexp) -> Option<R<Sexp>> {
     let op = match l[0].atom() { Ok(o) => o, Err(_) => return None };
     let known = ["parse-term", "parse-args", "parse-list", "parse-complex", "parse-function",
                  "parse-query", "parse-subgoal", "check-infix", "check-arith-infix",
-                 "make-logic-var", "check-quotes", "indices-of-parens"];
+                 "make-logic-var", "check-quotes", "indices-of-parens", "unify-text"];
     if !known.contains(&op) { return None; }
     Some(run(op, l))
 }
@@ -35,6 +36,16 @@ fn run(op: &str, l: &[Sexp]) -> R<Sexp> {
     let s = str_of_atom(l[1].atom()?)?;
     match (op, l.len()) {
         ("parse-term", 2) => Ok(res_term(parse_term(&s))),
+        // text -> parse_term -> unified with the fresh variable $R_1 under the empty substitution set
+        ("unify-text", 2) => Ok(match parse_term(&s) {
+            Ok(t) => {
+                let v = Unifiable::LogicVar{ id: 1, name: "$R".to_string() };
+                let ss = empty_ss!();
+                let r = t.unify(&v, &ss);
+                ok(sexp_of_opt_ss(&r))
+            },
+            Err(_) => a("err"),
+        }),
         ("parse-args", 2) => Ok(match parse_arguments(&s) {
             Ok(ts) => ok(L(ts.iter().map(sexp_of_term).collect())),
             Err(_) => a("err"),
